@@ -100,9 +100,9 @@ end TV.NetTcp
 namespace TV.NetTcp
 namespace Tcb
 
-/-- `segment_one` only advances `snd_nxt`. -/
+/-- `segment_one` only advances `snd_nxt` (and `snd_max` with it). -/
 theorem segStep_eq {t t' : Tcb} {mss cap port : Nat} {sg : Seg}
-    (hs : t.segStep mss cap port = some (t', sg)) : t' = { t with sndNxt := t'.sndNxt } := by
+    (hs : t.segStep mss cap port = some (t', sg)) : t' = { t with sndNxt := t'.sndNxt, sndMax := t'.sndMax } := by
   unfold segStep at hs
   dsimp only at hs
   split at hs
@@ -112,7 +112,8 @@ theorem segStep_eq {t t' : Tcb} {mss cap port : Nat} {sg : Seg}
     · cases hs
 
 theorem segLoop_eq (mss cap port : Nat) (fuel : Nat) (t : Tcb) (acc : List Seg) :
-    (segLoop mss cap port fuel t acc).1 = { t with sndNxt := (segLoop mss cap port fuel t acc).1.sndNxt } := by
+    (segLoop mss cap port fuel t acc).1 =
+      { t with sndNxt := (segLoop mss cap port fuel t acc).1.sndNxt, sndMax := (segLoop mss cap port fuel t acc).1.sndMax } := by
   induction fuel generalizing t acc with
   | zero => rfl
   | succ n ih =>
